@@ -26,6 +26,8 @@ def main():
         checks = m.get("checks", {})
         caught = [p for p, r in checks.items() if r.get("exit") == 1]
         hist = m.get("detection_history", "")
+        if m.get("obsolete"):
+            hist += " -- NOW OBSOLETE: " + m["obsolete"]
         missed_first = "missed" in hist.lower().split("caught")[0] if hist else False
         pr = per_round.setdefault(rnd, {"n": 0, "first": 0})
         pr["n"] += 1
